@@ -17,6 +17,7 @@ RULE = (
     "reloaded in both contexts (stand-alone synth / module in a project) with the options CHDT compared against an independent "
     "packing computed from the YAML layout; every option set to v1, saved, then set to v2 on the loaded object and on a clone and saved again (second generation); Hypothesis: random full assignments in random order, cut into up to three generations applied to loaded / cloned objects. distinct = assignment "
     "sequence; non-trivial = >= 2 options non-default or a multi-bit option at its top value or a clamped value"
+    ' Also (added while the seeded-change rounds of DESIGN section 9 ran): Every third assignment is made with the strictness flag off; later generations continue on the loaded object, a clone, or the saved object itself; exclusive pairs are split across a save; project contexts are written as older versions in turn.'
 )
 ASSUMPTIONS = [
     "YAML byte/bit/size/inverted/exclusive_of/min/max are the declared layout",
